@@ -4,15 +4,15 @@ c = c
 Obj = {a, b, c}
 NULL = NULL
 ObjSeq <- ObjSeqDef
-FmtSel = {1, 3}
+FmtSel = {1, 3, 5}
 RndSel = {1, 2}
 OvfSel = {1}
-GridSel = {2, 3}
+GridSel = {2, 3, 6}
 Acts <- ActsC20
-Depth = 99
+Depth = 8
 EXT = 4
 INIT Init
 NEXT Next
 CHECK_DEADLOCK FALSE
 VIEW View
-INVARIANT EmitHist
+INVARIANT EmitFull
